@@ -3,6 +3,9 @@ package c14
 import (
 	"fmt"
 	"math"
+	"regexp"
+	"strconv"
+	"strings"
 	"testing"
 
 	"pgregory.net/rapid"
@@ -173,11 +176,22 @@ func checkTableRender(vt *multiterm.VirtualTerm, counter *aggregation.TableAggre
 	o.Label(len(g.cols) > c.NumCols, "more-cols-than-fit")
 	o.Label(nrows >= 3, "rows>=3")
 	o.Label(len(cols) >= 2, "cols>=2")
+	if c.Format == "{0}/{min}/{max}" && !c.RowTotals && !c.ColTotals {
+		// "{1} or {min} -- the min value in the set, {2} or {max} -- the max":
+		// whatever the set is, the displayed cells belong to it and one render
+		// has one set. So every cell of this render carries the same min/max
+		// and lies between them (a min/max left over from an earlier state of
+		// the table does not). Totals are not cells of the set: not generated here.
+		if err := checkBounds(vt, rows[:nrows], cols, g, o); err != nil {
+			return err
+		}
+	}
 	if !valueOnly(c.Format) {
 		// which min/max a table hands to the formatter is the set's
 		// (documented), but a cell text with them is not needed to decide
-		// alignment of the others: these renders are crash-only.
-		pbt.Exclude("formatter depending on min/max: table cells not compared")
+		// alignment of the others: beyond the bounds law above these
+		// renders are crash-only.
+		pbt.Exclude("formatter depending on min/max: table cell texts not compared")
 		return nil
 	}
 	fm := func(v int64) string { labelVal(o, v); return f(v, 0, 0) }
@@ -284,3 +298,41 @@ var tableSpec = pbt.Spec[TableCase]{
 }
 
 func TestTable(t *testing.T) { pbt.Run(t, tableSpec) }
+
+var boundsCell = regexp.MustCompile(`(-?\d+)/(-?\d+)/(-?\d+)`)
+
+// checkBounds: table rendered with the formatter {0}/{min}/{max}, no totals.
+func checkBounds(vt *multiterm.VirtualTerm, rows []*aggregation.TableRow, cols []string, g *grid, o *pbt.Obs) error {
+	if len(rows) == 0 || len(cols) == 0 {
+		return nil
+	}
+	var mn, mx string
+	seen := 0
+	for i, r := range rows {
+		name := r.Name()
+		if strings.ContainsAny(name, "/0123456789\x1b") {
+			continue // the key itself could look like a cell
+		}
+		line := strip(vt.Get(i + 1))
+		for _, m := range boundsCell.FindAllStringSubmatch(line, -1) {
+			v, e1 := strconv.ParseInt(m[1], 10, 64)
+			lo, e2 := strconv.ParseInt(m[2], 10, 64)
+			hi, e3 := strconv.ParseInt(m[3], 10, 64)
+			if e1 != nil || e2 != nil || e3 != nil {
+				continue
+			}
+			if seen == 0 {
+				mn, mx = m[2], m[3]
+			} else if m[2] != mn || m[3] != mx {
+				return fmt.Errorf("cells of one table render carry different min/max: %s/%s and %s/%s (row %q)", mn, mx, m[2], m[3], name)
+			}
+			seen++
+			if v < lo || v > hi {
+				return fmt.Errorf("table cell %q of row %q: the value %d lies outside the min/max %d..%d handed to the formatter (\"the min/max value in the set\")", m[0], name, v, lo, hi)
+			}
+		}
+	}
+	o.Add("bounds-cells", seen)
+	o.Label(seen > 0, "bounds-law-checked")
+	return nil
+}
